@@ -210,6 +210,13 @@ def r4(ctx, rep):
     rep.check(".rewind()" in show(tail_expr(dt["body"]), maxdepth=12), "date-lookahead", "the digit look-ahead after `@` must not consume the digit", file=dt["file"], line=dt["l"], fn=dt["path"])
 
 
+def r5(ctx, rep):
+    # "for every source it rejects, it reports at least one error and no tokens": a panic while the error is converted is neither. The
+    # panic-capable sites of the lexer (indexing / slicing a string by an offset, unwraps) are those of C12's inventory for lexer/
+    import C12
+    rep.borrowed(C12.r1, ctx, "C17.R5", "the lexer's error path returns errors: its panic-capable sites stay within their reviewed classes", only=r"^(class|guard):lexer/")
+
+
 def run(ctx, rep):
-    for r in (r1, r2, r3, r4):
+    for r in (r1, r2, r3, r4, r5):
         rep.guard(r, ctx)
